@@ -152,6 +152,20 @@ def h_sampling(ctx, outset, kind, invert):
         tot = tot + m[lw.State(list(t))]
     ctx.check_eq(tot, sum(vals.values()), f"sampling:{kind}:total-conserved")
     ctx.check(m.input == inp, "sampling:input-kept")
+    # second application of any mapping to the mapped result (a mapped result is an ordinary
+    # result: its outputs are again replaced by their images, e.g. inverted twice = flipped back)
+    kind2, inv2 = ctx.choice("second", [("threshold", False), ("threshold", True), ("parity", False), ("parity", True)])
+    m2 = m.apply_threshold_mapping(inv2) if kind2 == "threshold" else m.apply_parity_mapping(inv2)
+    want2 = {}
+    for t, v in want.items():
+        t2 = fmap(kind2, inv2, t)
+        want2[t2] = want2[t2] + v if t2 in want2 else v
+    ctx.check(sorted(k.s for k in m2.keys()) == sorted(list(t) for t in want2), f"sampling:{kind2}:second-application:keys-are-the-images")
+    for t, v in want2.items():
+        if lw.State(list(t)) in m2:
+            ctx.check_eq(m2[lw.State(list(t))], v, f"sampling:{kind2}:second-application:image-weight-is-sum-of-preimages")
+    for t, v in want.items():
+        ctx.check_eq(m[lw.State(list(t))], v, "sampling:second-application:first-mapped-result-untouched")
     for o in outs:
         ctx.check_eq(res[lw.State(list(o))], vals[o], "sampling:original-untouched")
     for bad, exc in (([1, 0], TypeError), (lw.State([9] * (len(outs[0]) + 1)), KeyError)):
